@@ -202,6 +202,65 @@ Theorem C18_history_independent_linked :
 Proof. exact history_independent_linked. Qed.
 Print Assumptions C18_history_independent_linked.
 
+(* ---- (a3) LINKED, CHAINED (C18/ChainStages.v): where an owner publishes a
+   translation between two models the stages are chained, later stages
+   consuming what earlier ones produce:
+     chain A  C11 eliminate_loop --C01.LinkC11.cells_of--> C01 convert_cells -> prune -> print_table
+     chain B  C13 fill_loop ; inline_cells --C13.LinkC01.embed_cells--> C01 convert_cells -> prune -> print_table
+   [chained_pipeline] is ONE stage value (state: C11's table, C13's table and
+   counter, C01's counter / volume dictionary / two caches, twice). ---- *)
+From T4V Require Import C18.ChainStages.
+From T4V Require C01.Model C01.Printer C01.LinkC11 C13.LinkC01.
+
+Theorem C18_chained_pipeline_history_independent_linked :
+  forall fuel11 fuel13 cfuel
+         (hist1 hist2 : list (s_in (chained_pipeline fuel11 fuel13 cfuel)))
+         (p1 p2 : proc (chained_pipeline fuel11 fuel13 cfuel))
+         (i : s_in (chained_pipeline fuel11 fuel13 cfuel))
+         (d : s_out (chained_pipeline fuel11 fuel13 cfuel)),
+  last (snd (proc_history (chained_pipeline fuel11 fuel13 cfuel) p1 (hist1 ++ [i]))) d
+  = last (snd (proc_history (chained_pipeline fuel11 fuel13 cfuel) p2 (hist2 ++ [i]))) d.
+Proof. exact chained_pipeline_history_independent. Qed.
+Print Assumptions C18_chained_pipeline_history_independent_linked.
+
+(* what the chains compute is exactly: the owner's first stage, the owner's
+   translation, C01's own [pipeline] (convert_cells from mkSt cnt0 [] [] [],
+   then prune) and C01's printer *)
+Theorem C18_chained_pipeline_shapes_linked :
+  (forall fuel11 cfuel tbl r,
+     fst (fresh_run (chainA fuel11 cfuel) (tbl, r))
+     = (C11.Model.eliminate_all fuel11 tbl,
+        match C11.Model.eliminate_all fuel11 tbl with
+        | C11.Model.Err _ => None
+        | C11.Model.Ok tbl' =>
+            Some (fst (fst (fresh_run (st_backend01 cfuel) (C01.LinkC11.cells_of tbl', r))),
+                  match C01.Model.pipeline cfuel (C01.LinkC11.cells_of tbl') (r_matching r) (r_u0 r)
+                                           (r_u1 r) (r_todo r) (r_cnt0 r) (r_rn r) with
+                  | C01.Model.Ok (_, d) => Some (C01.Printer.print_table (r_skipped r) d)
+                  | C01.Model.Err _ => None
+                  end)
+        end)) /\
+  (forall fuel13 cfuel o dic counter r,
+     fst (fresh_run (chainB fuel13 cfuel) (o, dic, counter, r))
+     = (C13.Model.cell_stage fuel13 o dic counter,
+        match C13.Model.cell_stage fuel13 o dic counter with
+        | C13.Model.Err _ => None
+        | C13.Model.Ok (d2, _) =>
+            Some (fst (fst (fresh_run (st_backend01 cfuel) (C13.LinkC01.embed_cells d2, r))),
+                  match C01.Model.pipeline cfuel (C13.LinkC01.embed_cells d2) (r_matching r) (r_u0 r)
+                                           (r_u1 r) (r_todo r) (r_cnt0 r) (r_rn r) with
+                  | C01.Model.Ok (_, d) => Some (C01.Printer.print_table (r_skipped r) d)
+                  | C01.Model.Err _ => None
+                  end)
+        end)) /\
+  (* non-vacuity: chain A on C01.LinkC11's example deck prints VOLU lines *)
+  (exists t x lines,
+     fst (fresh_run (chainA 10 3)
+            (C01.LinkC11.exl_tbl, mkRest C01.LinkC11.exl_matching 5%Z 6%Z [1%Z; 2%Z] 2%Z None []))
+     = (C11.Model.Ok t, Some (x, Some lines)) /\ lines <> []).
+Proof. exact (conj chainA_shape (conj chainB_shape chainA_example)). Qed.
+Print Assumptions C18_chained_pipeline_shapes_linked.
+
 (* ---- (b) the effect-footprint audit: what [audit_ok] guarantees of ANY
    footprint; coq/generated/Footprint.v instantiates these on the footprint of
    the sources of the day, with [audit_ok allow footprint = true] proved by
